@@ -197,7 +197,7 @@ def _run(tier, replay=None):
     rep = vlib.Report("C04", "proof", tier, "cd coq && make Properties/C04.vo  (coqc 8.16.1, full .vo build)")
     rng = vlib.SplitMix64(vlib.seed() * 1000003 + 4)
     ok, broken = vlib.coq_step(rep, "C04", gen(), extract="Aesmodes")
-    impl_exe = vlib.cc_harness("cbc", ["cbc_drv.c", "vcpuid.S"], "hook")
+    impl_exe = vlib.cc_harness("cbc", ["cbc_drv.c", "vcpuid.S", "poison.S"], "hook")
     model_exe = vlib.ocaml_driver("cbc", "Aesmodes")
     syms = aesmlib.archive_symbols("hook")
     famtab = {}
